@@ -441,16 +441,15 @@ Qed.
 Lemma resample_spec s g : wf s ->
   match resample s g with
   | (s', None) => wf s' /\ wave s' = g /\ value s' = map (interp (wave s) (value s)) g
-  | (s', Some e) => s' = s \/ (wave s' = wave s /\ value s' = map (interp (wave s) (value s)) g /\ wave_check g = Err e)
+  | (s', Some e) => s' = s
   end.
 Proof.
   intros (W1 & W2 & W3). unfold resample, sample.
   destruct (length (wave s) =? 0)%nat; auto.
   destruct (length (wave s) =? length (value s))%nat; simpl; auto.
-  destruct (wave_check g) as [w'|e] eqn:Ec.
-  - apply wave_check_ok in Ec. destruct Ec as (-> & C1 & C2). split; auto.
-    apply wf_of_samples; auto. rewrite map_length. reflexivity.
-  - right. auto.
+  destruct (wave_check g) as [w'|e] eqn:Ec; auto.
+  apply wave_check_ok in Ec. destruct Ec as (-> & C1 & C2). split; auto.
+  apply wf_of_samples; auto. rewrite map_length. reflexivity.
 Qed.
 
 (* ------------------------------------------------------------------ *)
@@ -484,21 +483,20 @@ Lemma In_combine_map {A B} (f : A -> B) g x y : In (x, y) (combine g (map f g)) 
 Proof. induction g; simpl; intros H; [destruct H|]. destruct H as [H|H]; [inversion H; auto | auto]. Qed.
 
 
-Lemma exec_wf s o : wf s -> op_ok o -> ~ bad_resample s o -> wf (fst (exec s o)).
+Lemma exec_wf s o : wf s -> op_ok o -> wf (fst (exec s o)).
 Proof.
-  intros W Ho Hb. destruct o as [a b|tol|e0 e1 sm md|o'|g]; simpl in *.
+  intros W Ho. destruct o as [a b|tol|e0 e1 sm md|o'|g]; simpl in *.
   - apply crop_spec; auto.
   - pose proof (trim_spec s tol W) as T. destruct (trim s tol) as [s' [e|]]; simpl; [subst; auto | tauto].
   - pose proof (pad_spec s e0 e1 sm md W) as T. destruct (pad s e0 e1 sm md) as [s' [e|]]; simpl; [subst; auto | tauto].
   - pose proof (append_spec s o' W Ho) as T. destruct (append s o') as [s' [e|]]; simpl; [subst; auto | tauto].
-  - pose proof (resample_spec s g W) as T. destruct (resample s g) as [s' [e|]]; simpl in *; [|tauto].
-    exfalso. apply Hb. discriminate.
+  - pose proof (resample_spec s g W) as T. destruct (resample s g) as [s' [e|]]; simpl in *; [subst; auto | tauto].
 Qed.
 
-Lemma exec_retained s o : wf s -> op_ok o -> ~ bad_resample s o ->
+Lemma exec_retained s o : wf s -> op_ok o ->
   forall x y y', lookup (samples (fst (exec s o))) x = Some y' -> lookup (samples s) x = Some y -> y' = y.
 Proof.
-  intros W Ho Hb. pose proof (exec_wf s o W Ho Hb) as W'.
+  intros W Ho. pose proof (exec_wf s o W Ho) as W'.
   destruct o as [a b|tol|e0 e1 sm md|o'|g]; simpl in *.
   - apply retained_by_inclusion. left. split; auto. destruct (crop_spec s a b W) as [_ ->].
     intros q Hq. apply filter_In in Hq. tauto.
@@ -513,7 +511,7 @@ Proof.
     + subst. apply retained_by_inclusion. left. split; auto. apply incl_refl.
     + apply retained_by_inclusion. right. split; auto. destruct T as [_ ->]. intros q Hq. apply in_or_app. auto.
   - pose proof (resample_spec s g W) as T. destruct (resample s g) as [s' [e|]]; simpl in *.
-    + exfalso. apply Hb. discriminate.
+    + subst. intros x y y' L' L. congruence.
     + destruct T as (_ & T1 & T2). intros x y y' L' L. apply lookup_In in L', L.
       unfold samples in L'. rewrite T1, T2 in L'. apply In_combine_map in L'. subst y'.
       apply interp_node; auto; apply W.
@@ -521,26 +519,23 @@ Qed.
 
 (* ------------------------------------------------------------------ *)
 (* the invariant over call sequences                                   *)
-Lemma run_wf ops : forall s, wf s -> Forall op_ok ops -> no_bad_resample s ops -> wf (run s ops).
+Lemma run_wf ops : forall s, wf s -> Forall op_ok ops -> wf (run s ops).
 Proof.
-  induction ops as [|o t IH]; simpl; intros s W Ho Hb; auto.
-  inversion Ho; subst. destruct Hb as [B1 B2]. apply IH; auto. apply exec_wf; auto.
+  induction ops as [|o t IH]; simpl; intros s W Ho; auto.
+  inversion Ho; subst. apply IH; auto. apply exec_wf; auto.
 Qed.
-Lemma trace_wf ops : forall s, wf s -> Forall op_ok ops -> no_bad_resample s ops ->
-  Forall (fun r => wf (fst r)) (trace s ops).
+Lemma trace_wf ops : forall s, wf s -> Forall op_ok ops -> Forall (fun r => wf (fst r)) (trace s ops).
 Proof.
-  induction ops as [|o t IH]; simpl; intros s W Ho Hb; constructor.
+  induction ops as [|o t IH]; simpl; intros s W Ho; constructor.
   - inversion Ho; subst. apply exec_wf; tauto.
-  - inversion Ho; subst. apply IH; auto; try tauto. apply exec_wf; tauto.
+  - inversion Ho; subst. apply IH; auto. apply exec_wf; tauto.
 Qed.
 
-(* a refused call leaves the object untouched, except: crop above the range (object emptied, then
-   IndexError) and resample with a bad grid (values already replaced) *)
+(* a refused call leaves the object untouched, with one exception: crop above the range empties the object
+   and then raises IndexError (the emptied object is still exactly the samples inside the range) *)
 Lemma refused_unchanged s o e : wf s -> op_ok o -> snd (exec s o) = Some e ->
   match o with
   | OCrop a b => samples (fst (exec s o)) = select a b (samples s)
-  | OResample g => fst (exec s o) = s \/
-      (wave (fst (exec s o)) = wave s /\ value (fst (exec s o)) = map (interp (wave s) (value s)) g)
   | _ => fst (exec s o) = s
   end.
 Proof.
@@ -549,8 +544,7 @@ Proof.
   - pose proof (trim_spec s tol W) as T. destruct (trim s tol) as [s' [e'|]]; simpl in *; [auto|discriminate].
   - pose proof (pad_spec s e0 e1 sm md W) as T. destruct (pad s e0 e1 sm md) as [s' [e'|]]; simpl in *; [auto|discriminate].
   - pose proof (append_spec s o' W Ho) as T. destruct (append s o') as [s' [e'|]]; simpl in *; [auto|discriminate].
-  - pose proof (resample_spec s g W) as T. destruct (resample s g) as [s' [e'|]]; simpl in *; [|discriminate].
-    destruct T as [T|(T1 & T2 & _)]; auto.
+  - pose proof (resample_spec s g W) as T. destruct (resample s g) as [s' [e'|]]; simpl in *; [auto|discriminate].
 Qed.
 
 (* ------------------------------------------------------------------ *)
@@ -1302,17 +1296,6 @@ Qed.
 Definition qq (n d : Z) : Qc := Q2Qc (n # Z.to_pos d).
 Lemma wf_by_check w v : wave_check w = Ok w -> length w = length v -> wf (mkSp w v).
 Proof. intros H L. apply wave_check_ok in H. destruct H as (_ & I & P). repeat split; auto. Qed.
-Lemma resample_bad_grid_witness :
-  let sp := mkSp [qq 1 1; qq 2 1; qq 4 1] [qq 1 1; qq 3 1; qq 7 1] in
-  wf sp /\
-  (let r := resample sp [qq 3 1; qq 2 1; qq 1 1; qq 1 2] in
-   snd r = Some ValueError /\ length (wave (fst r)) = 3%nat /\ length (value (fst r)) = 4%nat) /\
-  (let r := resample sp [qq 4 1; qq 2 1; qq 1 1] in
-   snd r = Some ValueError /\ wave (fst r) = wave sp /\
-   lookup (samples sp) (qq 1 1) = Some (qq 1 1) /\ lookup (samples (fst r)) (qq 1 1) = Some (qq 7 1)).
-Proof.
-  split; [apply wf_by_check; reflexivity|]. split; vm_compute; repeat split; reflexivity.
-Qed.
 Fixpoint leqb (l1 l2 : list Qc) : bool :=
   match l1, l2 with [], [] => true | a :: t, b :: u => qeqb a b && leqb t u | _, _ => false end.
 Lemma leqb_eq l1 l2 : leqb l1 l2 = true -> l1 = l2.
@@ -1342,77 +1325,25 @@ Proof.
   - res_l.
   - res_l.
 Qed.
-Fixpoint nbrb (s : spectrum) (ops : list op) : bool :=
-  match ops with
-  | [] => true
-  | o :: t => (match o with OResample _ => match snd (exec s o) with None => true | Some _ => false end | _ => true end)
-              && nbrb (fst (exec s o)) t
-  end.
-Lemma nbrb_ok ops : forall s, nbrb s ops = true -> no_bad_resample s ops.
-Proof.
-  induction ops as [|o t IH]; intros s H; simpl in *; auto. apply andb_prop in H. destruct H as [H1 H2].
-  split; auto. destruct o; simpl in *; auto. intros K. apply K. destruct (snd (resample s g)); [discriminate | reflexivity].
-Qed.
 Lemma spectrum_eq a b : leqb (wave a) (wave b) && leqb (value a) (value b) = true -> a = b.
 Proof. intros H. apply andb_prop in H. destruct H as [H1 H2]. apply leqb_eq in H1, H2. destruct a, b; simpl in *; congruence. Qed.
 Lemma nonvacuous_example :
   let spx := mkSp [qq 1 1; qq 3 2; qq 5 2; qq 9 2; qq 5 1] [qq 0 1; qq 2 1; qq 4 1; qq 1 1; qq 0 1] in
   let opsx := [OTrim (qq 1 8); OPad (qq 1 2) (qq 11 2) None PadEdge; OPad (qq 3 1) (qq 6 1) None (PadConst 0 0);
-               OCrop (qq 1 1) (qq 9 2); OAppend (mkSp [qq 6 1] [qq 3 1]); OResample [qq 1 1; qq 2 1; qq 5 2; qq 6 1; qq 7 1]] in
-  wf spx /\ Forall op_ok opsx /\ no_bad_resample spx opsx /\
-  map snd (trace spx opsx) = [None; None; Some ValueError; None; None; None] /\
+               OCrop (qq 1 1) (qq 9 2); OAppend (mkSp [qq 6 1] [qq 3 1]); OResample [qq 3 1; qq 2 1; qq 1 1; qq 1 2];
+               OResample [qq 1 1; qq 2 1; qq 5 2; qq 6 1; qq 7 1]] in
+  wf spx /\ Forall op_ok opsx /\
+  map snd (trace spx opsx) = [None; None; Some ValueError; None; None; Some ValueError; None] /\
   run spx opsx = mkSp [qq 1 1; qq 2 1; qq 5 2; qq 6 1; qq 7 1] [qq 0 1; qq 3 1; qq 4 1; qq 3 1; qq 0 1] /\
   integrate spx (Some (qq 3 2)) (Some (qq 9 2)) Trapz = Ok (qq 8 1) /\
   pl_integral (samples spx) (qq 3 2) (qq 9 2) = qq 8 1 /\
   bin spx [qq 3 2; qq 5 2; qq 9 2] Trapz Inside true = Ok (Some [qq 80 57; qq 88 19; qq 112 57]).
 Proof.
   intros spx opsx. split; [apply wf_by_check; reflexivity|].
-  split; [repeat constructor|]. split; [apply nbrb_ok; vm_compute; reflexivity|].
+  split; [repeat constructor|].
   split; [vm_compute; reflexivity|]. split; [apply spectrum_eq; vm_compute; reflexivity|].
   split; [res_q|]. split; [qc_eval | res_l].
 Qed.
-
-(* ------------------------------------------------------------------ *)
-(* the machine with the resample fix: the invariant needs no side condition *)
-Lemma resample_fixed_spec s g : wf s ->
-  match resample_fixed s g with
-  | (s', None) => wf s' /\ wave s' = g /\ value s' = map (interp (wave s) (value s)) g
-  | (s', Some e) => s' = s
-  end.
-Proof.
-  intros (W1 & W2 & W3). unfold resample_fixed, sample.
-  destruct (length (wave s) =? 0)%nat; auto.
-  destruct (length (wave s) =? length (value s))%nat; simpl; auto.
-  destruct (wave_check g) as [w'|e] eqn:Ec; auto.
-  apply wave_check_ok in Ec. destruct Ec as (-> & C1 & C2). split; auto.
-  apply wf_of_samples; auto. rewrite map_length. reflexivity.
-Qed.
-Lemma exec_fixed_wf s o : wf s -> op_ok o -> wf (fst (exec_fixed s o)).
-Proof.
-  intros W Ho. destruct o as [a b|tol|e0 e1 sm md|o'|g];
-    try (apply (exec_wf s _ W Ho); simpl; tauto).
-  simpl. pose proof (resample_fixed_spec s g W) as T. destruct (resample_fixed s g) as [s' [e|]]; simpl; [subst; auto | tauto].
-Qed.
-Lemma exec_fixed_retained s o : wf s -> op_ok o ->
-  forall x y y', lookup (samples (fst (exec_fixed s o))) x = Some y' -> lookup (samples s) x = Some y -> y' = y.
-Proof.
-  intros W Ho. destruct o as [a b|tol|e0 e1 sm md|o'|g];
-    try (apply (exec_retained s _ W Ho); simpl; tauto).
-  simpl. pose proof (resample_fixed_spec s g W) as T. destruct (resample_fixed s g) as [s' [e|]]; simpl in *.
-  - subst. intros x y y' L' L. congruence.
-  - destruct T as (_ & T1 & T2). intros x y y' L' L. apply lookup_In in L', L.
-    unfold samples in L'. rewrite T1, T2 in L'. apply In_combine_map in L'. subst y'.
-    apply interp_node; auto; apply W.
-Qed.
-Lemma run_fixed_wf ops : forall s, wf s -> Forall op_ok ops ->
-  wf (run_fixed s ops) /\ Forall (fun r => wf (fst r)) (trace_fixed s ops).
-Proof.
-  induction ops as [|o t IH]; simpl; intros s W Ho; [split; auto|].
-  inversion Ho; subst. pose proof (exec_fixed_wf s o W H1) as W'. destruct (IH _ W' H2) as [I1 I2].
-  split; auto.
-Qed.
-Lemma resample_fixed_refused s g e : snd (resample_fixed s g) = Some e -> fst (resample_fixed s g) = s.
-Proof. unfold resample_fixed. destruct (sample s g); simpl; auto. destruct (wave_check g); simpl; auto. discriminate. Qed.
 
 (* ------------------------------------------------------------------ *)
 (* Simpson bins without power preservation are non-negative for ANY increasing centres: the weights
@@ -1773,4 +1704,55 @@ Proof.
   rewrite chain_trapz_nth by (unfold x; rewrite bin_edges_trapz_length; lia).
   rewrite <- (wf_wave _ W), <- (wf_value _ W). rewrite E. symmetry. apply pl_interval; auto.
   rewrite <- E, (wf_wave _ W). apply W.
+Qed.
+
+(* ------------------------------------------------------------------ *)
+(* integrate with ARBITRARY bounds: the integral of the interpolant between the first and the last sample inside
+   the closed range (nothing is interpolated at the bounds themselves) *)
+Lemma last_In {A} (l : list A) d : l <> [] -> In (last l d) l.
+Proof.
+  induction l as [|a [|b t] IH]; intros H; [congruence | left; reflexivity |].
+  right. apply IH. discriminate.
+Qed.
+Lemma select_hull (P : list (Qc * Qc)) lo hi a ya t : increasing (map fst P) ->
+  select lo hi P = (a, ya) :: t ->
+  let b := last (map fst ((a, ya) :: t)) 0 in
+  In a (map fst P) /\ In b (map fst P) /\ a <= b /\ select a b P = select lo hi P.
+Proof.
+  intros I E b.
+  assert (IS : increasing (map fst ((a, ya) :: t))).
+  { rewrite <- E. unfold select. rewrite <- filter_map_fst. apply increasing_SS, SS_filter, increasing_SS. exact I. }
+  assert (Hin : forall x, In x (map fst ((a, ya) :: t)) -> In x (map fst P) /\ lo <= x /\ x <= hi).
+  { intros x Hx. apply in_map_iff in Hx. destruct Hx as (q & <- & Hq). rewrite <- E in Hq.
+    apply filter_In in Hq. destruct Hq as [H1 H2]. split; [apply (in_map fst); auto|].
+    unfold in_range in H2. apply andb_prop in H2. destruct H2. qb. auto. }
+  assert (Hb : In b (map fst ((a, ya) :: t))) by (apply last_In; discriminate).
+  assert (Ha : In a (map fst ((a, ya) :: t))) by (left; reflexivity).
+  destruct (Hin _ Ha) as (A1 & A2 & A3). destruct (Hin _ Hb) as (B1 & B2 & B3).
+  assert (Hab : a <= b) by (apply (increasing_head_le a (map fst t)); auto).
+  repeat split; auto.
+  unfold select. apply filter_ext_in. intros q Hq. unfold in_range.
+  destruct (qle lo (fst q) && qle (fst q) hi) eqn:R.
+  - (* a selected sample lies between the first and the last selected one *)
+    assert (Hs : In (fst q) (map fst ((a, ya) :: t))).
+    { rewrite <- E. apply (in_map fst). apply filter_In. split; auto. }
+    apply andb_true_intro. split; apply qle_iff.
+    + apply (increasing_head_le a (map fst t)); auto.
+    + apply increasing_le_last; auto.
+  - apply andb_false_iff in R. apply andb_false_iff. destruct R as [R|R]; qb.
+    + left. apply qle_false. eapply Qclt_le_trans; eauto.
+    + right. apply qle_false. eapply Qcle_lt_trans; eauto.
+Qed.
+Lemma integrate_any_bounds s lo hi : wf s ->
+  integrate s (Some lo) (Some hi) Trapz =
+  Ok (match select lo hi (samples s) with
+      | [] => 0
+      | (a, ya) :: t => pl_integral (samples s) a (last (map fst ((a, ya) :: t)) 0)
+      end).
+Proof.
+  intros W. unfold integrate. simpl. f_equal.
+  assert (I : increasing (map fst (samples s))) by (rewrite (wf_wave _ W); apply W).
+  destruct (select lo hi (samples s)) as [|[a ya] t] eqn:E; [reflexivity|].
+  destruct (select_hull _ _ _ _ _ _ I E) as (H1 & H2 & H3 & H4).
+  rewrite <- E, <- H4. apply trapz_is_pl_integral; auto.
 Qed.
